@@ -49,6 +49,140 @@ def arm_actions(fx, body, out_lids, chr_lids, esc_lid, args_lid):
     return acts
 
 
+def _find_scanner(fx, hb, depth=2):
+    """(body, for-loop node) of the loop over `<format>.chars()` in eval_print or a local function it calls"""
+    for n, ps in walk_body(hb):
+        if n.get("k") == "Match" and n.get("src") == "ForLoopDesugar":
+            it = peel(n["scrut"]["args"][0])
+            if it.get("k") == "MethodCall" and it["name"] == "chars":
+                return hb, n
+    if depth > 0:
+        for n, ps in walk_body(hb):
+            if n.get("k") in ("Call", "MethodCall") and n.get("callee"):
+                cal = n["callee"]
+                did = cal.get("inst_did") if cal.get("inst_local") else (cal.get("did") if cal.get("local") else None)
+                b2 = fx.hir_by_did.get(did) if did else None
+                if b2 is not None and b2 is not hb and not b2["from_expansion"]:
+                    r = _find_scanner(fx, b2, depth - 1)
+                    if r:
+                        return r
+    return None
+
+
+def _fsm_cells(ck, fx, hb):
+    """Abstract interpretation of the scanning loop's body over the finite partition
+    {escaped, plain} × {~ \\ \" n t r OTHER}: for each cell the body is executed with the flag fixed and the character
+    fixed (OTHER: a symbolic character known to differ from the six special ones); the effects on the text buffer, the
+    argument list and the flag are compared with S5. Returns False when the loop has no (flag, character) shape."""
+    from ..symex import Executor, Client, State, lit as L, app
+    from ..symdbg import fmt_term
+    found = _find_scanner(fx, hb)
+    if not found:
+        return False
+    sb, loop = found
+    # pattern and body of the for loop
+    inner = peel((peel(loop["arms"][0]["body"])["body"].get("expr") or peel(loop["arms"][0]["body"])["body"]["stmts"][0]["e"]))
+    some_arm = [a for a in inner["arms"] if (a["pat"].get("res") or {}).get("variant") == "Some"]
+    if not some_arm:
+        return False
+    sp = some_arm[0]["pat"]
+    pat = sp["pats"][0] if "pats" in sp else sp["fields"][0]["pat"]
+    body = some_arm[0]["body"]
+    # the flag: a bool local assigned inside the body
+    esc = None
+    for n, ps in walk(body):
+        if n.get("k") == "Assign":
+            l = local_of(n["lhs"])
+            if l and (fx.ty(n["lhs"]) or "") == "bool":
+                esc = l
+    if esc is None:
+        return False
+
+    class C(Client):
+        name = "print-fsm"
+        inline_depth = 4
+
+        def no_inline(self, path):
+            return path.endswith("evaluate_as_string") or "evaluate_as_string" in path
+
+    specials = ["~", "\\", '"', "n", "t", "r"]
+    n_cells = 0
+    for e in (True, False):
+        for ch in specials + [OTHER]:
+            n_cells += 1
+            key = "(%s, %s)" % ("escaped" if e else "plain", repr(ch) if ch != OTHER else "any other char")
+            ex = Executor(fx, C())
+            st = State()
+            for n, ps in walk(body):
+                if n.get("k") == "Path" and (n.get("res") or {}).get("k") == "Local" and n["res"]["lid"] not in st.env:
+                    st.env[n["res"]["lid"]] = ("var", n["res"]["name"])
+            st.env[esc[0]] = L(e)
+            if ch == OTHER:
+                cv = ("sym", 10 ** 6, "char")
+                for c in specials:
+                    st.learn(app("eq", cv, L(c)), False)
+            else:
+                cv = L(ch)
+            try:
+                ex.match_pat(pat, cv, st)
+                res = ex.ev(body, st)
+            except Exception as ex_:  # noqa
+                ck.ob("R15.fsm", key, False, loc(body), "cannot execute the loop body for this cell (unprovable): %s" % str(ex_)[:100])
+                continue
+            succ, fails = [], 0
+            for s_, o in res:
+                if o[0] in ("val", "cont"):
+                    writes, argn = [], 0
+                    for ef in s_.eff:
+                        if ef["k"] != "call":
+                            continue
+                        cn = ef["args"][0][1].rsplit("::", 1)[-1]
+                        recv = ef["args"][1] if len(ef["args"]) > 1 else None
+                        if cn in ("push", "write_char") and len(ef["args"]) == 3 and recv is not None and recv[0] == "var":
+                            a = ef["args"][2]
+                            writes.append(a[1] if a[0] == "lit" else ("same" if a == cv else "?"))
+                        elif cn in ("push_str", "write_str") and len(ef["args"]) == 3 and recv is not None and recv[0] == "var":
+                            a = ef["args"][2]
+                            rendered = any(x["k"] == "call" and "evaluate_as_string" in x["args"][0][1] and x.get("res") is not None and _mentions(a, x["res"]) for x in s_.eff)
+                            writes.append("<argument>" if rendered else (a[1] if a[0] == "lit" else "?"))
+                        elif cn in ("pop", "next") and recv is not None and recv[0] == "var" and "arg" in str(recv[1]).lower():
+                            argn += 1
+                    succ.append((tuple(writes), argn, s_.env.get(esc[0])))
+                elif o[0] in ("ret", "panic") or (o[0] == "val" and isinstance(o[1], tuple) and o[1] and o[1][0] == "err"):
+                    fails += 1
+            if e:
+                want = None if ch == OTHER else {((ESCAPES[ch.replace("\\\\", "\\")] if ch != "\\" else "\\",), 0, L(False))}
+                if ch == "\\":
+                    want = {(("\\",), 0, L(False))}
+            elif ch == "\\":
+                want = {((), 0, L(True))}
+            elif ch == "~":
+                want = {(("<argument>",), 1, L(False))}
+            else:
+                want = {((ch if ch != OTHER else "same",), 0, L(False))}
+            got = set(succ)
+            norm = {(tuple("same" if (w == ch and not e) else w for w in ws) if ch != OTHER else ws, a, f) for ws, a, f in got}
+            if want is None:
+                ok = not succ and fails > 0
+            else:
+                want_n = {(tuple("same" if (w == ch and not e) else w for w in ws), a, f) for ws, a, f in want}
+                ok = bool(succ) and norm == want_n  # failing paths: the `?` on the buffer write / a missing argument
+            ck.ob("R15.fsm", key, ok, loc(body), "successful outcomes (text appended, arguments taken, flag afterwards): %s, failing paths: %d; S5: %s" % (
+                sorted((list(ws), a, fmt_term(f) if isinstance(f, tuple) else f) for ws, a, f in got), fails,
+                "always fails" if want is None else sorted((list(ws), a, fmt_term(f)) for ws, a, f in want)))
+    ck.floor("R15.fsm", "cells", n_cells, 14)
+    ck.ob("R15.fsm", "scans format.chars() in order", True, loc(loop), "for-loop over the format's Unicode scalar values in %s" % sb["path"], nontrivial=False)
+    return True
+
+
+def _mentions(t, sub):
+    if t == sub:
+        return True
+    if isinstance(t, tuple):
+        return any(_mentions(x, sub) for x in t if isinstance(x, tuple))
+    return False
+
+
 def expected_actions(escaped, ch):
     if escaped:
         if ch in ESCAPES:
@@ -78,8 +212,17 @@ def run(ck, fx, cg, tier):
     if not ck.anchor("R15.fsm", "eval_print", hb):
         return
     ck.fn(hb["path"])
+    if _fsm_cells(ck, fx, hb):
+        # decided cell by cell on the loop body itself (helpers, arm order and guard spelling do not matter)
+        _count(ck, fx)
+        _render(ck, fx)
+        _lexer(ck, fx)
+        return
     ms = [m for m in find_matches(hb) if peel(m["scrut"]).get("k") == "Tup" and len(peel(m["scrut"])["elems"]) == 2]
     if not ck.anchor("R15.fsm", "match (escaped, character)", ms or None):
+        _count(ck, fx)
+        _render(ck, fx)
+        _lexer(ck, fx)
         return
     m = ms[0]
     sc = peel(m["scrut"])
@@ -170,15 +313,12 @@ def _count(ck, fx):
         if not failing:
             continue
         for e in V._all_effects(p["eff"]):
-            if e["k"] == "assume_fail" and isinstance(e["args"][0], tuple) and e["args"][0][0] == "fall" and e["args"][0][3] == "pop" :
+            if e["k"] == "assume_fail" and isinstance(e["args"][0], tuple) and e["args"][0][0] == "fall" and e["args"][0][3] in ("pop", "next", "next_back", "pop_front", "pop_back"):
                 # pop on the local argument list (not the operand stack)
                 if not V._recv_mentions(p["eff"], e, "operand_stack"):
                     too_few = True
-            if e["k"] == "assume" and "is_empty(" in fmt_term(e["args"][0]):
-                s = fmt_term(e["args"][0])
-                neg = s.startswith("not(")
-                if (neg and e["args"][1] == V.TRUE) or (not neg and e["args"][1] == V.FALSE):
-                    too_many = True
+            if e["k"] == "assume" and V.nonempty_assumed(e["args"][0], e["args"][1]):
+                too_many = True
     ck.ob("R15.count", "more placeholders than arguments fails", too_few, "", "a failing path for `argument list exhausted` exists: %s" % too_few)
     ck.ob("R15.count", "more arguments than placeholders fails", too_many, "", "a failing path for `arguments left over after the format` exists: %s" % too_many)
     oks = V.ok_paths(paths)
